@@ -783,6 +783,13 @@ class KernelCpu:
         if arg.pointer:
             if hasattr(arg.atype, "_dtype"):  # it is numerical scalar
                 if hasattr(value, "dtype"):  # nparray
+                    if not value.dtype.isnative:
+                        # same dtype name and C type, but the kernel would
+                        # read and write byte-swapped numbers
+                        raise TypeError(
+                            f"Array for argument `{arg.name}` is not in "
+                            "native byte order."
+                        )
                     slice_first_elem = value[tuple(value.ndim * [slice(0, 1)])]
                     return self.ffi_interface.cast(
                         dtype2ctype(value.dtype) + "*",
